@@ -23,6 +23,17 @@
 (* with the function table of the model being saved).  The concrete values  *)
 (* are bound by the driver: the value pool, the long-text family and the    *)
 (* plugin workbooks of harness/checks/c03.py.                               *)
+(* SaveLoaded: the model a from_file returned is itself saved (under a     *)
+(*   second base name: text file and pickle, both made from the text which *)
+(*   _to_text writes from the loaded model).  `again` is the content of    *)
+(*   those files.  ResaveReproduces: it is the content of the file the     *)
+(*   model was read from -- every cell, every constant, the metadata --    *)
+(*   so a model read from the second files equals the loaded one.  The     *)
+(*   constants are atoms here; the driver binds them to numbers of every   *)
+(*   class a text file writer treats differently: integers, decimals,      *)
+(*   numbers whose shortest text is in exponent notation (abs >= 1e16 or   *)
+(*   < 1e-4) with 1..17 significant digits, the smallest and the largest   *)
+(*   floats, powers of two.                                                *)
 (* DEV_StalePickle = TRUE is the rule above (the code).  With FALSE the    *)
 (* pickle is rewritten whenever it does not hold the current content       *)
 (* (the repaired rule) -- the named deviation behind known finding D9.     *)
@@ -39,16 +50,17 @@ VARIABLES live,     \* [Inputs -> Vals]   the model in memory
           meta,     \* metadata of the live model (extra_data version)
           txt, pkl, \* files: NoFile or [c |-> content, m |-> meta]
           loaded,   \* NoFile or the content a from_file returned
+          again,    \* NoFile or the content of the files the loaded model was saved to
           lastop, hist
-vars == <<live, meta, txt, pkl, loaded, lastop, hist>>
-view == <<live, meta, txt, pkl, loaded, lastop>>
+vars == <<live, meta, txt, pkl, loaded, again, lastop, hist>>
+view == <<live, meta, txt, pkl, loaded, again, lastop>>
 
 \* one shape for every file value (TLC cannot compare a record with a tuple)
 NoFile == [ex |-> FALSE, c |-> Init0, m |-> 0]
 Content == [ex |-> TRUE, c |-> live, m |-> meta]
 
 Init == /\ live = Init0 /\ meta = 0
-        /\ txt = NoFile /\ pkl = NoFile /\ loaded = NoFile
+        /\ txt = NoFile /\ pkl = NoFile /\ loaded = NoFile /\ again = NoFile
         /\ lastop = <<"init">> /\ hist = <<>>
 
 Log(e) == hist' = Append(hist, e)
@@ -56,11 +68,11 @@ Log(e) == hist' = Append(hist, e)
 SetValue(a, v) == /\ live[a] # v
                   /\ live' = [live EXCEPT ![a] = v]
                   /\ lastop' = <<"set">> /\ Log([op |-> "set_value", n |-> a, v |-> v])
-                  /\ UNCHANGED <<meta, txt, pkl, loaded>>
+                  /\ UNCHANGED <<meta, txt, pkl, loaded, again>>
 
 SetMeta == /\ meta < 1 /\ meta' = meta + 1        \* user changes extra_data
            /\ lastop' = <<"set">> /\ Log([op |-> "set_meta"])
-           /\ UNCHANGED <<live, txt, pkl, loaded>>
+           /\ UNCHANGED <<live, txt, pkl, loaded, again>>
 
 \* kinds is one of {"txt"}, {"pkl"}, {"txt", "pkl"}.  The text is always written
 \* first, to <base>.<text ext>, or to <base>.yml when only a pickle is asked
@@ -78,7 +90,7 @@ ToFile(kinds) ==
                 ELSE Content                      \* pickle reused: the text file stays
       /\ pkl' = IF writePkl THEN Content ELSE pkl
       /\ lastop' = <<"save", kinds>> /\ Log([op |-> "to_file", kinds |-> kinds])
-      /\ UNCHANGED <<live, meta, loaded>>
+      /\ UNCHANGED <<live, meta, loaded, again>>
 
 FromFile(ext) ==
   LET src == IF ext = "pkl" THEN pkl
@@ -88,12 +100,21 @@ FromFile(ext) ==
       /\ loaded' = src
       /\ lastop' = <<"load", ext, IF ext = "auto" THEN (IF pkl.ex THEN "pkl" ELSE "txt") ELSE ext>>
       /\ Log([op |-> "from_file", ext |-> ext])
-      /\ UNCHANGED <<live, meta, txt, pkl>>
+      /\ UNCHANGED <<live, meta, txt, pkl, again>>
+
+\* the model which the last from_file returned is saved (text file and pickle
+\* of a second base name); lastop keeps the kind of file it was read from
+SaveLoaded ==
+  /\ lastop[1] = "load"
+  /\ again' = loaded
+  /\ lastop' = <<"resave", lastop[2], lastop[3]>> /\ Log([op |-> "save_loaded"])
+  /\ UNCHANGED <<live, meta, txt, pkl, loaded>>
 
 Next == \/ \E a \in Inputs, v \in Vals : SetValue(a, v)
         \/ SetMeta
         \/ \E k \in {{"txt"}, {"pkl"}, {"txt", "pkl"}} : ToFile(k)
         \/ \E e \in {"txt", "pkl", "auto"} : FromFile(e)
+        \/ SaveLoaded
 
 Spec == Init /\ [][Next]_vars
 
@@ -113,12 +134,20 @@ Current(k) == LastSaveIdx(k, Len(hist)) > LastChangeIdx(Len(hist))
 LoadedEquiv ==
   lastop[1] = "load" /\ Current(lastop[3]) => loaded = Content
 
+\* saving a loaded model reproduces the content of the file it was read from
+\* (which no to_file of the live model has touched in between)
+SourceFile(kind) == IF kind = "pkl" THEN pkl ELSE txt
+ResaveReproduces ==
+  lastop[1] = "resave" => again.ex /\ again = SourceFile(lastop[3])
+
 \* saving an unchanged model again leaves the text file as it is
 SaveIdempotent ==
   [][ (\E k \in {{"txt"}, {"txt", "pkl"}} : ToFile(k)) /\ txt = Content => txt' = txt ]_vars
 
 Depth == Len(hist) <= 5
 
-Export == PrintT(ToJson([hist |-> hist, txt |-> txt, pkl |-> pkl, loaded |-> loaded,
-                         live |-> live, meta |-> meta, lastop |-> lastop]))
+\* (TLC evaluates an invariant on the successors beyond CONSTRAINT Depth too:
+\* they are not part of the export)
+Export == Depth => PrintT(ToJson([hist |-> hist, txt |-> txt, pkl |-> pkl, loaded |-> loaded,
+                         again |-> again, live |-> live, meta |-> meta, lastop |-> lastop]))
 =============================================================================
